@@ -110,6 +110,15 @@ def run(ctx):
         raise Infra("stall: empty trace")
     for s in res["samples"][:2]:
         ctx.sample(s)
+    # the liveness demand CloseReturns on the REAL transports (ConnStream over net.Pipe / unix / tcp, PipeStream over
+    # os.Pipe): the peer stops draining until the reader goroutine is parked in the write of a refusal, then Close()
+    real = c17.run_harness(ctx, ["realstall", "6" if ctx.tier == "thorough" else "2"], "stall on real transports", timeout=1200)
+    if real is not None:
+        ctx.failures(real["failures"])
+        ctx.traces += real["evaluations"]
+        for smp in real["samples"][:4]:
+            ctx.sample({"realstall": smp})
+        ctx.extra["stall_real_transports"] = (real.get("extra") or {}).get("transports")
     ctx.extra["stall"] = {"behaviours_exported": exported, "behaviours_replayed": res["evaluations"],
                           "command_sequences_with_several_outcomes": races,
                           "diverged_to_other_allowed_outcome": extra.get("diverged_to_other_allowed_outcome", 0),
